@@ -1,3 +1,5 @@
+mod density;
+mod record;
 mod replay_nuts;
 
 fn main() {
@@ -6,6 +8,7 @@ fn main() {
     let rest = &args[2.min(args.len())..];
     let code = match cmd {
         "replay-nuts" => replay_nuts::main(rest),
+        "record-chains" => record::main(rest),
         _ => {
             eprintln!("usage: vh <replay-nuts|...> args");
             2
